@@ -403,13 +403,13 @@ def loadedVertices : List (Vertex Nat) := [⟨0, 10, 20⟩, ⟨1, 11, 21⟩, ⟨
 
 -- a load that succeeds (scanned counts), two components, one of two vertices; five slots for three vertices
 -- (declared count 5) load as well and give the same components
-example : (match graphFromFiles ⟨true, 4, loadedEdges.map Row.ok⟩ ⟨true, 4, loadedVertices.map Row.ok⟩ none none with
+example : (match graphFromFiles ⟨true, 4, true, loadedEdges.map Row.ok⟩ ⟨true, 4, true, loadedVertices.map Row.ok⟩ none none with
     | .ok net => (match allSccIter (Scc.Graph.ofNet net) with
       | .ok cs => cs.length == 2 && cs.any (fun c => c.length == 2) && isSccPartition (Scc.Graph.ofNet net) cs
       | .error _ => false)
     | .error _ => false) = true := by decide
 
-example : (match graphFromFiles ⟨true, 4, loadedEdges.map Row.ok⟩ ⟨true, 4, loadedVertices.map Row.ok⟩ (some 3) (some 5) with
+example : (match graphFromFiles ⟨true, 4, true, loadedEdges.map Row.ok⟩ ⟨true, 4, true, loadedVertices.map Row.ok⟩ (some 3) (some 5) with
     | .ok net => net.adj.length == 5 && (Scc.Graph.ofNet net).wfb &&
       (match allSccIter (Scc.Graph.ofNet net) with
       | .ok cs => cs.length == 2
